@@ -21,8 +21,8 @@ Statements (anything else makes the method `untranslatable`, which is reported):
 Expressions: self.samples.is_empty(), self.samples.len() < 2, samples[0].dts, self.samples[0].dts,
     self.samples.last().unwrap().dts, a.saturating_sub(b), x.wrapping_add(1), u128::from(a) * 1000 / u128::from(b),
     u64::try_from(ms).unwrap_or(u64::MAX), self.current_fragment_duration_ms() >= self.config.fragment_duration_ms as u64
-Trusted: these patterns; `build_media_segment` is the model's `buildSegment` (hand-written, tied by the correspondence
-run and, box by box, by tools/rs2lean.py); indices the source guards itself (`samples[0]` after the emptiness test,
+Also translated: `build_trun`, `build_traf`, `build_moof_with_offset`, `build_moof`, `build_media_segment` (the whole media
+segment, proved equal to the model's `buildSegment`).  Trusted: these patterns; indices the source guards itself (`samples[0]` after the emptiness test,
 `last().unwrap()` after the length test) are rendered with a default value.
 """
 import os
@@ -153,7 +153,7 @@ def method(src, name, kind, params):
             env["samples"] = "samples"; continue
         m = re.fullmatch(r"let\s+(\w+)\s*=\s*build_media_segment\(\s*&samples\s*,\s*self\.sequence_number\s*,\s*self\.base_media_decode_time\s*,\s*self\.config\.timescale\s*,?\s*\)", s, re.S)
         if m and "samples" in env:
-            lines.append("  let %s : Bytes := buildSegment samples self.seq self.base" % m.group(1))
+            lines.append("  let %s : Bytes := build_media_segment samples self.seq self.base" % m.group(1))
             env[m.group(1)] = m.group(1); continue
         m = re.fullmatch(r"let\s+(\w+)\s*=\s*(.+)", s, re.S)
         if m:
@@ -274,6 +274,88 @@ def translate_trun(full_src):
             "def build_trun (samples : List FSample) (data_offset : Nat) : Bytes :=\n" + "\n".join(lines) + "\n")
 
 
+SEG_FUNCS = {  # name -> (Lean parameter list, Rust parameter names in call order)
+    "build_traf": ("(samples : List FSample) (base_media_decode_time : Nat) (data_offset : Nat)", ["samples", "base_media_decode_time", "data_offset"]),
+    "build_moof_with_offset": ("(samples : List FSample) (sequence_number : Nat) (base_media_decode_time : Nat) (data_offset : Nat)",
+                               ["samples", "sequence_number", "base_media_decode_time", "data_offset"]),
+    "build_moof": ("(samples : List FSample) (sequence_number : Nat) (base_media_decode_time : Nat)", ["samples", "sequence_number", "base_media_decode_time"]),
+    "build_media_segment": ("(samples : List FSample) (sequence_number : Nat) (base_media_decode_time : Nat)",
+                            ["samples", "sequence_number", "base_media_decode_time", "_timescale"]),
+}
+CALLEES = {"build_mfhd": "Muxide.Generated.Frag.build_mfhd", "build_tfhd": "Muxide.Generated.Frag.build_tfhd",
+           "build_tfdt": "Muxide.Generated.Frag.build_tfdt", "build_trun": "build_trun", "build_traf": "build_traf",
+           "build_moof_with_offset": "build_moof_with_offset", "build_moof": "build_moof"}
+
+
+def seg_call(c, env):
+    m = re.fullmatch(r"(\w+)\((.*)\)", c.strip(), re.S)
+    if not m or m.group(1) not in CALLEES:
+        raise Untranslatable("call: " + c[:50])
+    args = []
+    for a_ in [x.strip() for x in m.group(2).split(",") if x.strip()]:
+        a_ = a_.lstrip("&")
+        if re.fullmatch(r"\d+", a_):
+            args.append(a_)
+        elif a_ in env:
+            args.append(a_)
+        else:
+            raise Untranslatable("argument: " + a_)
+    return ("%s %s" % (CALLEES[m.group(1)], " ".join(args))).strip()
+
+
+def translate_seg(full_src, name):
+    """the four functions that assemble a media segment from its boxes (moof[mfhd, traf[tfhd, tfdt, trun]], mdat)"""
+    params, rust_params = SEG_FUNCS[name]
+    sig, body = find_fn(full_src, name)
+    env = set(p for p in rust_params if not p.startswith("_"))
+    lines = []
+    stmts = [x.strip().rstrip(";").strip() for x in split_statements(body)]
+    stmts = [x for x in stmts if x]
+    for k, st in enumerate(stmts):
+        last = k == len(stmts) - 1
+        m = re.fullmatch(r"let\s+mut\s+(\w+)\s*=\s*Vec::(?:new\(\)|with_capacity\(.*\))", st, re.S)
+        if m:
+            lines.append("  let %s : Bytes := []" % m.group(1)); env.add(m.group(1)); continue
+        m = re.fullmatch(r"let\s+(\w+)\s*:\s*usize\s*=\s*samples\.iter\(\)\.map\(\|s\|\s*s\.data\.len\(\)\)\.sum\(\)", st)
+        if m:
+            lines.append("  let %s : Nat := (samples.map (·.data.length)).sum" % m.group(1)); env.add(m.group(1)); continue
+        m = re.fullmatch(r"let\s+(\w+)\s*=\s*(\w+)\.len\(\)\s+as\s+u32", st)
+        if m and m.group(2) in env:
+            lines.append("  let %s : Nat := %s.length %% 2 ^ 32" % (m.group(1), m.group(2))); env.add(m.group(1)); continue
+        m = re.fullmatch(r"let\s+(\w+)\s*=\s*(\w+)\s*\+\s*(\d+)", st)
+        if m and m.group(2) in env:
+            lines.append("  let %s : Nat := (%s + %s) %% 2 ^ 32" % (m.group(1), m.group(2), m.group(3))); env.add(m.group(1)); continue
+        m = re.fullmatch(r"let\s+(\w+)\s*=\s*\((\d+)\s*\+\s*(\w+)\)\s+as\s+u32", st)
+        if m and m.group(3) in env:
+            lines.append("  let %s : Nat := (%s + %s) %% 2 ^ 32" % (m.group(1), m.group(2), m.group(3))); env.add(m.group(1)); continue
+        m = re.fullmatch(r"let\s+(\w+)\s*=\s*(\w+\(.*\))", st, re.S)
+        if m:
+            lines.append("  let %s : Bytes := %s" % (m.group(1), seg_call(m.group(2), env))); env.add(m.group(1)); continue
+        m = re.fullmatch(r"(\w+)\.extend_from_slice\(&(\w+)\.to_be_bytes\(\)\)", st)
+        if m and m.group(1) in env and m.group(2) in env:
+            lines.append("  let %s := %s ++ u32be %s" % (m.group(1), m.group(1), m.group(2))); continue
+        m = re.fullmatch(r'(\w+)\.extend_from_slice\(b"(....)"\)', st)
+        if m and m.group(1) in env:
+            lines.append("  let %s := %s ++ [%s]" % (m.group(1), m.group(1), ", ".join(str(b_) for b_ in m.group(2).encode()))); continue
+        m = re.fullmatch(r"(\w+)\.extend_from_slice\(&(\w+)\)", st)
+        if m and m.group(1) in env and m.group(2) in env:
+            lines.append("  let %s := %s ++ %s" % (m.group(1), m.group(1), m.group(2))); continue
+        m = re.fullmatch(r"for\s+sample\s+in\s+samples\s*\{\s*(\w+)\.extend_from_slice\(&sample\.data\)\s*;?\s*\}", st, re.S)
+        if m and m.group(1) in env:
+            lines.append("  let %s := %s ++ samples.flatMap (·.data)" % (m.group(1), m.group(1))); continue
+        if last:
+            m = re.fullmatch(r'build_box\(b"(....)",\s*&(\w+)\)', st)
+            if m and m.group(2) in env:
+                lines.append("  u32be (8 + %s.length) ++ [%s] ++ %s" % (m.group(2), ", ".join(str(b_) for b_ in m.group(1).encode()), m.group(2))); break
+            if st in env:
+                lines.append("  " + st); break
+            lines.append("  " + seg_call(st, env)); break
+        raise Untranslatable("statement: " + st[:70])
+    else:
+        raise Untranslatable("no result")
+    return "/-- `%s` (src/fragmented.rs), translated statement by statement -/\ndef %s %s : Bytes :=\n%s\n" % (name, name, params, "\n".join(lines))
+
+
 def generate():
     full = strip_comments(open(os.path.join(REPO, "src/fragmented.rs")).read())
     src = impl_body(full)
@@ -284,6 +366,13 @@ def generate():
         msg = re.sub(r"\s+", " ", str(e))
         failed.append(("build_trun", msg))
         out.append("-- UNTRANSLATABLE build_trun: %s\n" % msg)
+    for nm in ("build_traf", "build_moof_with_offset", "build_moof", "build_media_segment"):
+        try:
+            out.append(translate_seg(full, nm))
+        except Untranslatable as e:
+            msg = re.sub(r"\s+", " ", str(e))
+            failed.append((nm, msg))
+            out.append("-- UNTRANSLATABLE %s: %s\n" % (nm, msg))
     for name, kind, params in [("current_fragment_duration_ms", "nat", []), ("ready_to_flush", "bool", []),
                                ("write_video", "reply", ["pts", "dts", "data", "is_sync"]), ("flush_segment", "reply", [])]:
         try:
@@ -292,7 +381,7 @@ def generate():
             msg = re.sub(r"\s+", " ", str(e))
             failed.append((name, msg))
             out.append("-- UNTRANSLATABLE %s: %s\n" % (name, msg))
-    text = ("import Muxide.Model.Frag\n/-\n  GENERATED by tools/rs2lean_frag.py from /repo's working tree — do not edit.\n"
+    text = ("import Muxide.Model.Frag\nimport Muxide.Generated.Builders\n/-\n  GENERATED by tools/rs2lean_frag.py from /repo's working tree — do not edit.\n"
             "  The state machine of `FragmentedMuxer` (src/fragmented.rs).\n-/\n"
             "namespace Muxide.Generated.FragMethods\nopen Muxide\n\n" + "\n".join(out) + "\nend Muxide.Generated.FragMethods\n")
     return text, failed
@@ -307,7 +396,7 @@ def main():
             f.write(text)
     for n, e in failed:
         print("untranslatable %s: %s" % (n, e))
-    print("generated 5 definitions (%d untranslatable)%s" % (len(failed), "" if old == text else " [file updated]"))
+    print("generated 9 definitions (%d untranslatable)%s" % (len(failed), "" if old == text else " [file updated]"))
     return 1 if failed else 0
 
 
